@@ -99,7 +99,15 @@ def _fill_topdown(cinco, schema, d, root, validators):
             typ = cinco.make_type(sub, "T_" + key, key_filename=_keyfile(f, root))
             setattr(schema, key, typ)
         elif f["kind"] == "virtual":
-            setattr(schema, key, cinco.VirtualField(lambda cfg: 42, sensitive=bool(f.get("sensitive"))))
+            vk = f.get("vk", "const")
+            if f.get("auto"):
+                continue  # created by the ApplicationModeField next to it
+            if vk == "alias":
+                setattr(schema, key, cinco.VirtualField(_alias_getter(f["target"]), _alias_setter(f["target"])))
+            elif vk == "method":
+                cinco.instance_method(schema, key)(_alias_getter(f["target"]))
+            else:
+                setattr(schema, key, cinco.VirtualField(lambda cfg: 42, sensitive=bool(f.get("sensitive"))))
         elif f["kind"] == "list" and f["item"]["kind"] == "schema":
             item = build_schema_topdown(cinco, f["item"], root, validators)
             if f["item"].get("ctype"):
@@ -110,6 +118,59 @@ def _fill_topdown(cinco, schema, d, root, validators):
     for name in seq(d.get("validators", [])):
         fn = (validators or {}).get(name) or make_validator(name)
         cinco.validator(schema)(fn)
+
+
+def _alias_getter(target):
+    return lambda cfg: getattr(cfg, target)
+
+
+def _alias_setter(target):
+    return lambda cfg, value: setattr(cfg, target, value)
+
+
+def asdict_abs(cinco, desc, data, root=None):
+    """asdict() result -> the shape of the specification's AsDict (maps of configurations as
+    plain objects keyed by field, everything else as tagged values)."""
+    fields = {k: f for k, f in seq(desc["fields"])}
+    out = {}
+    for k, v in data.items():
+        f = fields.get(k)
+        if f and f["kind"] == "schema" and isinstance(v, dict):
+            out[k] = asdict_abs(cinco, f, v, root)
+        elif f and f["kind"] == "list" and f["item"]["kind"] == "schema" and isinstance(v, list):
+            out[k] = {"t": "list", "l": [asdict_abs(cinco, f["item"], i, root) if isinstance(i, dict) else project_value(cinco, i, root) for i in v]}
+        else:
+            out[k] = project_value(cinco, v, root)
+    return out
+
+
+def norm_asdict(desc, data):
+    fields = {k: f for k, f in seq(desc["fields"])}
+    out = {}
+    for k, v in (data or {}).items():
+        f = fields.get(k)
+        if f and f["kind"] == "schema" and "t" not in v:
+            out[k] = norm_asdict(f, v)
+        elif f and f["kind"] == "list" and f["item"]["kind"] == "schema" and v.get("t") == "list":
+            out[k] = {"t": "list", "l": [norm_asdict(f["item"], i) if "t" not in i else canon_state(i) for i in seq(v["l"])]}
+        else:
+            out[k] = canon_state(v)
+    return out
+
+
+def computed_values(cinco, desc, cfg, path=()):
+    out = []
+    for k, f in seq(desc["fields"]):
+        if f["kind"] == "virtual":
+            v = getattr(cfg, k)
+            if f.get("vk") == "method":
+                v = v()
+            out.append([list(path) + [k], project_value(cinco, v)])
+        elif f["kind"] == "schema":
+            sub = getattr(cfg, k)
+            if isinstance(sub, cinco.Config):
+                out += computed_values(cinco, f, sub, path + (k,))
+    return out
 
 
 def _keyfile(f, root):
@@ -364,6 +425,9 @@ class World:
                 cinco.reset_value(cfg, ".".join(list(seq(ev["p"])) + [ev["k"]]))
             elif op == "CopyTree":
                 cfg.load_tree(self.cfgs[ev["src"]].to_tree())
+            elif op == "Query":
+                res["asdict"] = asdict_abs(cinco, self.desc, cinco.asdict(cfg, virtual=True), self.root)
+                res["computed"] = sorted(computed_values(cinco, self.desc, cfg), key=lambda x: x[0])
             elif op == "Validate":
                 cfg.validate()
             elif op == "ValidateCollect":
@@ -473,6 +537,8 @@ class Adapter:
         out["repl"] = r["repl"]
         if r["repl_other"]:
             out["repl"] = r["repl"] + [["<other>"] + p for p in r["repl_other"]]
+        if ev["op"] == "Query" and r["out"] == "ok":
+            out["asdict"], out["computed"] = r["asdict"], r["computed"]
         if getattr(self, "focus", None) == "C11" and ev["op"] in ("Load", "Validate") and r["out"] == "ok":
             # (which validators ran before a failure is not pinned by C11: compared on success only)
             out["vlog"] = r["vlog"]
